@@ -956,28 +956,38 @@ async fn main() {
     let fk: Vec<_> = (0..nk).map(|j| keypair(20 + j as u8)).collect();
     let tk: Vec<_> = (0..nk).map(|j| keypair(40 + j as u8)).collect();
     let decoys: Vec<SaitoPublicKey> = (0..3).map(|j| keypair(70 + j as u8).0).collect();
-    let per = 2 * (max_n + 1) + 6;
+    // key j spends one genesis output in every block with more than j transfers (at most 255
+    // issuance transactions fit: Block::generate_consensus_values counts them in a u8)
+    let need: Vec<usize> = (0..nk).map(|j| 2 * max_n.saturating_sub(j) + 3).collect();
+    let mut base = vec![0usize; nk];
     let mut iss = vec![(node.pk, 10_000_000u64)];
     for j in 0..nk {
-        for _ in 0..per {
+        base[j] = iss.len();
+        for _ in 0..need[j] {
             iss.push((fk[j].0, 1_000_000));
         }
     }
+    assert!(iss.len() < 256);
+    let mut next_out = vec![0usize; nk];
+    let mut take = |j: usize| -> usize {
+        let i = base[j] + next_out[j];
+        next_out[j] += 1;
+        assert!(next_out[j] <= need[j]);
+        i
+    };
     let g = make_genesis(&node, 1000, &iss).await.expect("genesis");
     assert_eq!(node.add_block(g.clone()).await, AddClass::OnChain);
     let mut parent = g.clone();
-    let mut used = 0usize;
     let mut blocks: Vec<(String, Block)> = vec![];
     for n in 0..=max_n {
         for gt in [false, true] {
             let ts = parent.timestamp + 120_000;
             let mut txs = vec![];
             for j in 0..n {
-                let inp = outputs_of(&g, 1 + j * per + used);
+                let inp = outputs_of(&g, take(j));
                 let fee = 1000 + 10 * j as u64;
                 txs.push(make_tx(&inp[0..1], &[(tk[j].0, inp[0].amount - fee)], &fk[j].1, ts));
             }
-            used += 1;
             let b = make_block(&node, parent.hash, ts, txs, gt, 7 + n as u64).await.expect("block");
             let r = node.add_block(b.clone()).await;
             ctx.summary.count("chain_block_added", &format!("{:?}", r));
@@ -994,7 +1004,7 @@ async fn main() {
         let ts = parent.timestamp + 120_000;
         let mut txs = vec![];
         for j in 0..3 {
-            let inp = outputs_of(&g, 1 + j * per + used);
+            let inp = outputs_of(&g, take(j));
             let mut tx = make_tx(&inp[0..1], &[(tk[j].0, inp[0].amount - 1000)], &fk[j].1, ts);
             if j == 1 {
                 tx.txs_replacements = 2;
@@ -1002,7 +1012,6 @@ async fn main() {
             }
             txs.push(tx);
         }
-        used += 1;
         let b = make_block(&node, parent.hash, ts, txs, false, 3).await.expect("block");
         let r = node.add_block(b.clone()).await;
         ctx.summary.count("replacements2_block_added", &format!("{:?}", r));
@@ -1013,12 +1022,14 @@ async fn main() {
             ctx.summary.notes.push("block with txs_replacements=2 was not accepted; class replacements-gt-1 not exercised on a chain block".to_string());
         }
     }
-    // accepted block whose transactions were reordered after signing (merkle root stale, C06 defect)
+    // block whose transactions were reordered after signing (merkle root stale): accepted by the
+    // pinned tree (C06 defect), rejected since fix 22133df
+    let mut stale_unaccepted: Option<Block> = None;
     {
         let ts = parent.timestamp + 120_000;
         let mut txs = vec![];
         for j in 0..3 {
-            let inp = outputs_of(&g, 1 + j * per + used);
+            let inp = outputs_of(&g, take(j));
             txs.push(make_tx(&inp[0..1], &[(tk[j].0, inp[0].amount - 1000)], &fk[j].1, ts));
         }
         let mut b = make_block(&node, parent.hash, ts, txs, false, 3).await.expect("block");
@@ -1027,9 +1038,12 @@ async fn main() {
         let r = node.add_block(b.clone()).await;
         ctx.summary.count("stale_root_block_added", &format!("{:?}", r));
         if r == AddClass::OnChain {
+            // regression of the repaired Block::validate (fix 22133df): C18's header statement then
+            // fails on a chain block; the oracle reports it under the unlisted id stale-merkle-root
             blocks.push(("accepted block, transactions swapped after signing (stale merkle root)".to_string(), b));
         } else {
-            ctx.summary.notes.push("block with stale merkle root was not accepted; class stale-merkle-root not exercised".to_string());
+            // rejected by validation; generate_lite_block on it is still compared with the model
+            stale_unaccepted = Some(b);
         }
     }
 
@@ -1079,6 +1093,14 @@ async fn main() {
                 }
                 ctx.run(kind, name, &full, &ks, true);
             }
+        }
+    }
+
+    if let Some(stored) = &stale_unaccepted {
+        let mut full = stored.clone();
+        full.generate().expect("generate");
+        for ks in [vec![], vec![tk[0].0], vec![tk[0].0, fk[1].0, tk[2].0]] {
+            ctx.run("stale-root-unaccepted", "rejected block with stale merkle root", &full, &ks, false);
         }
     }
 
